@@ -29,6 +29,7 @@ type Ctx struct {
 	taintCache    *Taint
 	readConeCache map[*ssa.Function]bool
 	depCache      *depInfo
+	consumerCache map[*ssa.Function]bool
 }
 
 func (c *Ctx) Pos(p token.Pos) string { return c.P.Pos(p) }
